@@ -22,6 +22,7 @@ import (
 	_ "verif/props/c16/pb"
 	"verif/props/c16/reg"
 	"verif/scan"
+	"verif/wire"
 )
 
 func TestMain(m *testing.M) { pbt.Main(m) }
@@ -45,6 +46,14 @@ var ctors = []ctor{
 	{"errors.Errorf", false, false, func(d int) reg.R { return reg.R{Err: errors.Errorf("x %d", 1), Frames: reg.Capture()} }},
 	{"errors.NewWithDepth", true, false, func(d int) reg.R { return reg.R{Err: errors.NewWithDepth(d, "x"), Frames: reg.Capture()} }},
 	{"errors.NewWithDepthf", true, false, func(d int) reg.R { return reg.R{Err: errors.NewWithDepthf(d, "x %d", 1), Frames: reg.Capture()} }},
+	// the same constructors with a %w verb in the format (another code path)
+	{"errors.Newf(%w)", false, false, func(d int) reg.R { return reg.R{Err: errors.Newf("x: %w", base), Frames: reg.Capture()} }},
+	{"errors.Errorf(%w)", false, false, func(d int) reg.R { return reg.R{Err: errors.Errorf("x %d: %w", 1, base), Frames: reg.Capture()} }},
+	{"errors.NewWithDepthf(%w)", true, false, func(d int) reg.R { return reg.R{Err: errors.NewWithDepthf(d, "%w: x", base), Frames: reg.Capture()} }},
+	{"errors.AssertionFailedf(%w)", false, false, func(d int) reg.R { return reg.R{Err: errors.AssertionFailedf("x: %w", base), Frames: reg.Capture()} }},
+	{"errors.AssertionFailedWithDepthf(%w)", true, false, func(d int) reg.R { return reg.R{Err: errors.AssertionFailedWithDepthf(d, "x: %w", base), Frames: reg.Capture()} }},
+	{"errutil.NewWithDepthf(%w)", true, false, func(d int) reg.R { return reg.R{Err: errutil.NewWithDepthf(d, "x: %w", base), Frames: reg.Capture()} }},
+	{"errors.Wrapf(error arg)", false, false, func(d int) reg.R { return reg.R{Err: errors.Wrapf(base, "x: %v", base), Frames: reg.Capture()} }},
 	{"errors.Wrap", false, false, func(d int) reg.R { return reg.R{Err: errors.Wrap(base, "x"), Frames: reg.Capture()} }},
 	{"errors.Wrapf", false, false, func(d int) reg.R { return reg.R{Err: errors.Wrapf(base, "x %d", 1), Frames: reg.Capture()} }},
 	{"errors.WrapWithDepth", true, false, func(d int) reg.R { return reg.R{Err: errors.WrapWithDepth(d, base, "x"), Frames: reg.Capture()} }},
@@ -182,6 +191,12 @@ func check(c *pbt.Case, r *pbt.R) {
 		if f2, l2, fn2, ok2 := errors.GetOneLineSource(errors.WithStack(errors.Wrap(res.Err, "outer"))); f2 != sf || l2 != sl || fn2 != sfn || ok2 != sok {
 			r.Failf("GetOneLineSource does not report the innermost recorded stack", "%s:%d %s vs %s:%d %s\n%s", f2, l2, fn2, sf, sl, sfn, desc)
 		}
+		// ... and when the error was received over the network and then
+		// wrapped locally: the origin is still the innermost recorded frame.
+		remote := wire.Decode(wire.Encode(res.Err))
+		if f3, l3, fn3, ok3 := errors.GetOneLineSource(errors.WithStack(errors.Wrap(remote, "local"))); f3 != sf || l3 != sl || fn3 != sfn || ok3 != sok {
+			r.Failf("GetOneLineSource of a received error wrapped locally does not report the origin", "%s:%d %s vs %s:%d %s\n%s", f3, l3, fn3, sf, sl, sfn, desc)
+		}
 		if !sok || sf != filepath.Base(want.File) && sf != want.File || sl != want.Line || !strings.HasSuffix(want.Function, sfn) && sfn != short {
 			r.Failf("GetOneLineSource does not report the innermost recorded frame: "+ct.name, "got %s:%d %s ok=%v\n%s", sf, sl, sfn, sok, desc)
 		}
@@ -233,7 +248,11 @@ func TestGrid(t *testing.T) {
 	}
 	known := map[string]bool{}
 	for _, c := range ctors {
-		known[c.name] = true
+		n := c.name
+		if i := strings.Index(n, "("); i >= 0 {
+			n = n[:i]
+		}
+		known[n] = true
 	}
 	for _, n := range notCapturing {
 		known[n] = true
